@@ -49,6 +49,12 @@ class _Queue:
         self.log.append("append")
         self.items.append(x)
 
+    def flowControlBlocked(self):
+        return None
+
+    def __getitem__(self, i):
+        return self.items[i]
+
     def __bool__(self):
         return bool(self.items)
 
@@ -59,6 +65,8 @@ class _Queue:
 def check(ctx):
     with ctx.section("clamp"):
         _clamp(ctx)
+    with ctx.section("end-stream"):
+        _end_stream(ctx)
     with ctx.section("queues"):
         _queues(ctx)
     with ctx.section("loop"):
@@ -90,26 +98,52 @@ def _queue_calls(f):
     return out
 
 
+class _Self:
+    """model of the H2Connection instance: only inert data attributes (bound-method references used as callbacks)"""
+    _sa_model = True
+    _sendPrioritisedData = "<self._sendPrioritisedData>"
+
+    def __getattr__(self, name):
+        if name.startswith("__"):
+            raise AttributeError(name)
+        return f"<self.{name}>"
+
+
+class _Tree:
+    _sa_model = True
+
+
+SENTINEL = object()
+
+
+def _run_loop(f, first, M, W):
+    """interpret one turn of the sending loop with the queue holding ``first``; returns (sent frames, queue model, ended streams, rescheduled?)"""
+    qm = _Queue(first)
+    sent, ended, again = [], [], []
+    funcs = {
+        "next": lambda it: 1,
+        "self.conn.local_flow_control_window": lambda s: W,
+        "self.conn.send_data": lambda s, d, *a: sent.append(d),
+        "self.conn.end_stream": lambda s: ended.append(s),
+        "self.conn.data_to_send": lambda *a: b"",
+        "self.transport.write": lambda *a: None,
+        "self.priority.block": lambda *a: None,
+        "self.priority.unblock": lambda *a: None,
+        "self.remainingOutboundWindow": lambda s: 1,
+        "self.resetTimeout": lambda: None,
+        "self._requestDone": lambda s: None,
+        "self._reactor.callLater": lambda *a: again.append(a),
+        "Deferred": lambda *a: _Tree(),
+    }
+    mapping = {f"{QUEUE}[stream]": qm, "self.conn.max_outbound_frame_size": M, "self.streams[stream]": qm, "self._stillProducing": True,
+               "self._consumerBlocked": None, "self._sendingDeferred": None, "self.priority": _Tree(), "_END_STREAM_SENTINEL": SENTINEL}
+    interpret(f, {"self": _Self(), "args": ()}, mapping, funcs=funcs)
+    return sent, qm, ended, again
+
+
 def _clamp(ctx):
     f = ctx.func(H2, C + "._sendPrioritisedData")
     q = Q + C + "._sendPrioritisedData"
-    pops = [s for s in f.body if isinstance(s, ast.Assign) and isinstance(s.value, ast.Call) and [m for m, c in _queue_calls(s) if m in ("popleft", "pop")]]
-    ctx.need(len(pops) == 1 and isinstance(pops[0].targets[0], ast.Name), "frameData = self._outboundStreamQueues[stream].popleft() at the top level of the loop body")
-    data = pops[0].targets[0].id
-    branch = [s for s in f.body if isinstance(s, ast.If) and "_END_STREAM_SENTINEL" in src(s.test) and data in src(s.test)]
-    ctx.need(len(branch) == 1, "if frameData is _END_STREAM_SENTINEL: ... else: ...")
-    pol = cmp_polarity(branch[0].test, data, "_END_STREAM_SENTINEL")
-    if pol is None:
-        ctx.violation("clamp/end-after-data", ctx.construct(q, branch[0].test),
-                      "the END_STREAM branch is chosen by something other than the identity of the popped item with the end-of-response sentinel "
-                      "(an ordinary, e.g. empty, chunk would end the stream and cut the body)")
-        return
-    data_body = branch[0].orelse if pol else branch[0].body
-    end_body = branch[0].body if pol else branch[0].orelse
-    i0 = f.body.index(pops[0])
-    pre = [s for s in f.body[:f.body.index(branch[0])] if isinstance(s, ast.Assign) and isinstance(s.targets[0], ast.Name) and
-           (f.body.index(s) >= i0 or "local_flow_control_window" in src(s.value) or "max_outbound_frame_size" in src(s.value))]
-    fake = ast.FunctionDef(name="_dataBranch", args=f.args, body=pre + list(data_body), decorator_list=[])
     bad, badneg = [], []
     n = 0
     try:
@@ -118,20 +152,7 @@ def _clamp(ctx):
                 for W in range(-3, 5):
                     n += 1
                     chunk = bytes(range(65, 65 + L))
-                    qm = _Queue(chunk)
-                    sent = []
-                    funcs = {
-                        "self.conn.local_flow_control_window": lambda s: W,
-                        "self.conn.send_data": lambda s, d, *a: sent.append(d),
-                        "self.conn.data_to_send": lambda *a: b"",
-                        "self.transport.write": lambda *a: None,
-                        "self.priority.block": lambda *a: None,
-                        "self.priority.unblock": lambda *a: None,
-                        "self.remainingOutboundWindow": lambda s: 1,
-                        "self.resetTimeout": lambda: None,
-                    }
-                    mapping = {f"{QUEUE}[stream]": qm, "self.conn.max_outbound_frame_size": M, "self.streams[stream]": qm}
-                    interpret(fake, {"stream": 1, "self": None, "_END_STREAM_SENTINEL": object()}, mapping, funcs=funcs)
+                    sent, qm, ended, again = _run_loop(f, chunk, M, W)
                     limit = max(0, min(M, W))
                     total = b"".join(sent)
                     back = b"".join(x for x in qm.items if isinstance(x, bytes))
@@ -146,10 +167,14 @@ def _clamp(ctx):
                         why = "the remainder is appended at the back of the queue (later data overtakes it)"
                     elif L and limit and not total:
                         why = "sends nothing although the window is open"
+                    elif ended:
+                        why = "ends the stream although the popped item is ordinary data (the body is cut)"
                     if why:
                         (badneg if W < 0 else bad).append((L, M, W, why))
+        sent, qm, ended, again = _run_loop(f, SENTINEL, 4, 4)
+        sentinel_ok = ended == [1] and not sent
     except InterpError as e:
-        raise AnalysisError(f"C29: the data branch of _sendPrioritisedData is not interpretable: {e}")
+        raise AnalysisError(f"C29: _sendPrioritisedData uses a construct the evaluator cannot interpret: {e}")
     msg = ""
     if bad:
         L, M, W, why = bad[0]
@@ -161,7 +186,17 @@ def _clamp(ctx):
         msg = (f"chunk of {L} bytes, max_outbound_frame_size={M}, flow-control window={W} (negative after the peer shrank SETTINGS_INITIAL_WINDOW_SIZE): {why}; the clamp slices with a "
                f"negative bound (frameData[:{W}]), h2 refuses the frame with FlowControlError inside the loop, which is then never re-scheduled; {len(badneg)} cases wrong")
     ctx.check(not badneg, "clamp/negative-window", q + " | <data branch>", msg)
+    ctx.check(sentinel_ok, "clamp/end-after-data", q + " | <sentinel popped>", "popping the end-of-response sentinel does not end the stream (exactly once, without sending it as data)")
     ctx.extra["finite_cases_clamp"] = n
+
+
+def _end_stream(ctx):
+    f = ctx.func(H2, C + "._sendPrioritisedData")
+    q = Q + C + "._sendPrioritisedData"
+    pops = [s for s in walk_local(f) if isinstance(s, ast.Assign) and isinstance(s.value, ast.Call) and [m for m, c in _queue_calls(s) if m in ("popleft", "pop")]]
+    ctx.need(len(pops) == 1 and isinstance(pops[0].targets[0], ast.Name), "frameData = self._outboundStreamQueues[stream].popleft()")
+    data = pops[0].targets[0].id
+    pre = [s for s in walk_local(f) if isinstance(s, ast.Assign)]
     # the window used is that of the popped stream
     win = [s for s in pre if "local_flow_control_window" in src(s.value)]
     ok = len(win) == 1 and isinstance(win[0].value, ast.Call) and [src(a) for a in win[0].value.args] == ["stream"] and src(pops[0].value.func.value.slice) == "stream"
@@ -425,6 +460,8 @@ MUTANTS = [
     Mutant("end-stream-before-sentinel", H2, "        if frameData is _END_STREAM_SENTINEL:\n            # There's no error handling here even though", "        if frameData is _END_STREAM_SENTINEL or not frameData:\n            # There's no error handling here even though"),
 ]
 SILENT = [
+    Silent("clamp-rewritten-with-tuple-assign-and-floor", H2, "                excessData = frameData[maxFrameSize:]\n                frameData = frameData[:maxFrameSize]\n                self._outboundStreamQueues[stream].appendleft(excessData)\n",
+           "                cut = max(maxFrameSize, 0)\n                frameData, excessData = frameData[:cut], frameData[cut:]\n                self._outboundStreamQueues[stream].appendleft(excessData)\n"),
     Silent("clamp-slices-swapped-order", H2, "                excessData = frameData[maxFrameSize:]\n                frameData = frameData[:maxFrameSize]\n                self._outboundStreamQueues[stream].appendleft(excessData)\n",
            "                self._outboundStreamQueues[stream].appendleft(frameData[maxFrameSize:])\n                frameData = frameData[:maxFrameSize]\n"),
     Silent("window-test-flipped", H2, "        if not remainingWindow > 0:\n            return\n", "        if remainingWindow <= 0:\n            return\n"),
